@@ -48,6 +48,7 @@ class World:
     rule = ""
     assumptions: list[str] = []
     fault_kinds: list[str] = []
+    selftest_n = dict(quick=(24, 16), thorough=(200, 64))  # (re-executions, fresh-interpreter runs)
 
     def setup_node(self):
         """Called once in every forked child before any run."""
@@ -243,34 +244,40 @@ class Controller:
     def _chunk_fn(self, run_indices, keep_digests=False):
         w, seed = self.w, self.seed
 
+        def run_one(ri):
+            rs = prng.run_seed(w.pid, seed, ri)
+            trace = w.generate(rs, ri)
+            trace.setdefault("property", w.pid)
+            trace["verif_seed"], trace["run"], trace["run_seed"] = seed, ri, rs
+            res = w.execute(trace)
+            th = prng.digest([trace.get("problems"), trace["steps"]])
+            rec = dict(
+                run=ri,
+                th=th,
+                nt=bool(w.nontrivial(trace)),
+                dg=res["digest"],
+                steps=res.get("steps", len(trace["steps"])),
+                stats=res.get("stats", {}),
+                states=res.get("states", []),
+                il=res.get("interleaving"),
+                sim_time=res.get("sim_time", 0.0),
+                viol=res["violations"],
+            )
+            if res.get("aux") is not None:
+                rec["aux"] = res["aux"]
+            if res["violations"] or ri < 8:
+                rec["trace"] = trace
+            return rec
+
         def fn():
             w.setup_node()
-            out = []
-            for ri in run_indices:
-                rs = prng.run_seed(w.pid, seed, ri)
-                trace = w.generate(rs, ri)
-                trace.setdefault("property", w.pid)
-                trace["verif_seed"], trace["run"], trace["run_seed"] = seed, ri, rs
-                res = w.execute(trace)
-                th = prng.digest(trace["steps"])
-                rec = dict(
-                    run=ri,
-                    th=th,
-                    nt=bool(w.nontrivial(trace)),
-                    dg=res["digest"],
-                    steps=res.get("steps", len(trace["steps"])),
-                    stats=res.get("stats", {}),
-                    states=res.get("states", []),
-                    il=res.get("interleaving"),
-                    sim_time=res.get("sim_time", 0.0),
-                    viol=res["violations"],
-                )
-                if res.get("aux") is not None:
-                    rec["aux"] = res["aux"]
-                if res["violations"] or ri < 3:
-                    rec["trace"] = trace
-                out.append(rec)
-            return out
+            if len(run_indices) == 1:
+                return [run_one(run_indices[0])]
+            # every run executes in its own fork of this (never-executing, hence pristine) chunk process,
+            # so that no run can inherit state from an earlier one and every replay starts from the same node
+            from .node import fork_call
+
+            return [fork_call(lambda ri=ri: run_one(ri), timeout=w.run_timeout + 30) for ri in run_indices]
 
         return fn
 
@@ -290,7 +297,7 @@ class Controller:
             self.digests[rec["run"]] = rec["dg"]
             if rec.get("aux") is not None and len(self.aux) < 64:
                 self.aux.append(rec["aux"])
-            if "trace" in rec and not rec["viol"] and len(self.samples) < 3:
+            if "trace" in rec and not rec["viol"] and rec["nt"] and len(self.samples) < 3:
                 self.samples.append(_sample_view(rec["trace"]))
             for v in rec["viol"]:
                 k = match_known(self.known, v)
@@ -494,9 +501,9 @@ def explore(ctl: Controller, a, t0):
     t_batch = time.monotonic() - t0
     selftests = {}
     if not a.no_selftest:
-        n = 24 if a.tier == "quick" else 200
-        selftests["re_execution"] = ctl.determinism_selftest(n)
-        selftests["fresh_interpreter"] = ctl.hashseed_selftest(min(n, 16 if a.tier == "quick" else 64))
+        n_re, n_fresh = w.selftest_n[a.tier]
+        selftests["re_execution"] = ctl.determinism_selftest(n_re)
+        selftests["fresh_interpreter"] = ctl.hashseed_selftest(n_fresh)
         selftests.update(w.extra_selftests(ctl) or {})
 
     # ---- violations: group by (check, site); shrink and verify a few
